@@ -1,7 +1,10 @@
 (* C20 — property theorems: for every modelled kernel, the set of arguments on which the
    overflow-checks + debug-assertions build can trap.  "<> None" = no overflow check / assertion /
-   division panic trips.  Whole argument type whenever that is true; otherwise the exact domain
-   (iff) or the weakest sufficient precondition proved, with `…_trap_refuted` witnesses in Examples.v. *)
+   division panic trips.  After the wrapping-arithmetic repair of the hinting kernels (fix: hinting
+   overflow) every kernel is trap-free on its whole argument type; the only remaining preconditions are
+   a period of 0 / -1 for Super45 (not installable by SROUND/S45ROUND: `no_trap_sround_then_round`),
+   `lookup_glyph_id`'s `start_code <= codepoint` and `max_value_bitmap_len`'s usize::MAX.  The former
+   `…_trap_refuted` witnesses are kept in Examples.v as examples of the now total behaviour. *)
 From Coq Require Import ZArith List.
 From FV Require Import Lib.RustInt C15.Model C15.Proofs C20.Model C20.Proofs.
 Import ListNotations.
@@ -10,15 +13,19 @@ Open Scope Z_scope.
 (* ---- skrifa hint/math.rs ---- *)
 Theorem no_trap_floor : forall x, m_floor x <> None.
 Proof. exact C20.Proofs.no_trap_floor. Qed.
-Theorem round_no_trap_iff : forall x, i32 x -> (m_round x <> None <-> x <= 2147483615).
-Proof. exact m_round_trap_iff. Qed.
-Theorem ceil_no_trap_iff : forall x, i32 x -> (m_ceil x <> None <-> x <= 2147483584).
-Proof. exact m_ceil_trap_iff. Qed.
-Theorem floor_pad_no_trap_iff : forall x n, i32 n -> (m_floor_pad x n <> None <-> n <> -2147483648).
-Proof. exact m_floor_pad_trap_iff. Qed.
-Theorem round_pad_no_trap_iff : forall x n, i32 x -> i32 n ->
-  (m_round_pad x n <> None <-> i32 (x + Z.quot n 2) /\ n <> -2147483648).
-Proof. exact m_round_pad_trap_iff. Qed.
+Theorem no_trap_round : forall x, m_round x <> None.
+Proof. exact C20.Proofs.no_trap_round. Qed.
+Theorem no_trap_ceil : forall x, m_ceil x <> None.
+Proof. exact C20.Proofs.no_trap_ceil. Qed.
+Theorem no_trap_floor_pad : forall x n, m_floor_pad x n <> None.
+Proof. exact C20.Proofs.no_trap_floor_pad. Qed.
+Theorem no_trap_round_pad : forall x n, m_round_pad x n <> None.
+Proof. exact C20.Proofs.no_trap_round_pad. Qed.
+(* and the value is the unwrapped one wherever the old code did not trap *)
+Theorem round_value : forall x, i32 x -> x <= 2147483615 -> m_round x = Some ((x + 32) / 64 * 64).
+Proof. exact m_round_some. Qed.
+Theorem ceil_value : forall x, i32 x -> x <= 2147483584 -> m_ceil x = Some ((x + 63) / 64 * 64).
+Proof. exact m_ceil_some. Qed.
 Theorem no_trap_mul : forall a b, i32 a -> i32 b -> m_mul a b = Some (fixed_mul a b).
 Proof. exact C20.Proofs.no_trap_mul. Qed.
 Theorem no_trap_div : forall a b, i32 a -> i32 b -> m_div a b = Some (fixed_div a b).
@@ -27,44 +34,48 @@ Theorem no_trap_mul_div : forall s a b, i32 s -> i32 a -> i32 b -> m_mul_div s a
 Proof. exact C20.Proofs.no_trap_mul_div. Qed.
 Theorem no_trap_mul14 : forall a b, i32 a -> i32 b -> m_mul14 a b <> None.
 Proof. exact C20.Proofs.no_trap_mul14. Qed.
-(* full statement (forall i32 a b c, m_mul_div_no_round a b c <> None) is false: see
-   mul_div_no_round_trap_refuted*.  Proved: no operand is i32::MIN and the quotient fits i32. *)
-Theorem no_trap_mul_div_no_round_partial : forall a b c, i32 a -> i32 b -> i32 c ->
-  a <> -2147483648 -> b <> -2147483648 -> c <> -2147483648 ->
-  (c <> 0 -> Z.abs a * Z.abs b / Z.abs c <= 2147483647) ->
-  m_mul_div_no_round a b c <> None.
-Proof. exact no_trap_mul_div_no_round. Qed.
+Theorem no_trap_mul_div_no_round : forall a b c, i32 a -> i32 b -> i32 c -> m_mul_div_no_round a b c <> None.
+Proof. exact C20.Proofs.no_trap_mul_div_no_round. Qed.
+Theorem mul_div_no_round_value : forall a b c, i32 a -> i32 b -> i32 c -> 0 <= a -> 0 <= b -> 0 < c ->
+  a * b / c <= 2147483647 -> m_mul_div_no_round a b c = Some (a * b / c).
+Proof. exact C20.Proofs.mul_div_no_round_value. Qed.
 Theorem no_trap_normalize14_negshift : forall x y, m_normalize14_negshift x y <> None.
 Proof. exact C20.Proofs.no_trap_normalize14_negshift. Qed.
 
-(* ---- skrifa hint/round.rs: RoundState::round, exact trap-free domain per mode ---- *)
+(* ---- skrifa hint/round.rs: RoundState::round, every mode, every distance ---- *)
 Theorem no_trap_round_off : forall d, rs_off d <> None.
 Proof. exact no_trap_rs_off. Qed.
-Theorem round_grid_no_trap_iff : forall d, i32 d -> (rs_grid d <> None <-> -2147483615 <= d <= 2147483615).
-Proof. exact rs_grid_trap_iff. Qed.
-Theorem round_half_grid_no_trap_iff : forall d, i32 d -> (rs_half_grid d <> None <-> d <> -2147483648).
-Proof. exact rs_half_grid_trap_iff. Qed.
-Theorem round_double_grid_no_trap_iff : forall d, i32 d -> (rs_double_grid d <> None <-> -2147483631 <= d <= 2147483631).
-Proof. exact rs_double_grid_trap_iff. Qed.
-Theorem round_down_to_grid_no_trap_iff : forall d, i32 d -> (rs_down_to_grid d <> None <-> d <> -2147483648).
-Proof. exact rs_down_to_grid_trap_iff. Qed.
-Theorem round_up_to_grid_no_trap_iff : forall d, i32 d -> (rs_up_to_grid d <> None <-> -2147483584 <= d <= 2147483584).
-Proof. exact rs_up_to_grid_trap_iff. Qed.
-(* Super / Super45 with the parameters the interpreter can install (every SROUND / S45ROUND selector):
-   trap-free on all but the outermost 272 values at either end of i32 *)
+Theorem no_trap_round_grid : forall d, rs_grid d <> None.
+Proof. exact no_trap_rs_grid. Qed.
+Theorem no_trap_round_half_grid : forall d, rs_half_grid d <> None.
+Proof. exact no_trap_rs_half_grid. Qed.
+Theorem no_trap_round_double_grid : forall d, rs_double_grid d <> None.
+Proof. exact no_trap_rs_double_grid. Qed.
+Theorem no_trap_round_down_to_grid : forall d, rs_down_to_grid d <> None.
+Proof. exact no_trap_rs_down_to_grid. Qed.
+Theorem no_trap_round_up_to_grid : forall d, rs_up_to_grid d <> None.
+Proof. exact no_trap_rs_up_to_grid. Qed.
+Theorem no_trap_round_super : forall t ph pe d, rs_super t ph pe d <> None.
+Proof. exact no_trap_rs_super. Qed.
+Theorem no_trap_round_super45 : forall t ph pe d, pe <> 0 -> pe <> -1 -> rs_super45 t ph pe d <> None.
+Proof. exact no_trap_rs_super45. Qed.
+(* the repaired Grid mode agrees with the exact rounding wherever the old code did not trap *)
+Theorem round_grid_value : forall d, -2147483615 <= d <= 2147483615 ->
+  rs_grid d = Some (if 0 <=? d then Z.max ((d + 32) / 64 * 64) 0 else Z.min (- ((- d + 32) / 64 * 64)) 0).
+Proof. exact rs_grid_value. Qed.
+(* Super / Super45 with the parameters the interpreter can install (every SROUND / S45ROUND selector), every d *)
 Theorem no_trap_sround_then_round : forall g sel d, g = 16384 \/ g = 11585 ->
-  -2147483376 <= d <= 2147483375 ->
   exists t ph pe, super_round g sel = Some (t, ph, pe) /\
     rs_round (if g =? 16384 then 6 else 7) t ph pe d <> None.
 Proof. exact no_trap_sround_round. Qed.
 
 (* ---- font-types fixed.rs ---- *)
-Theorem fixed_neg_no_trap_iff : forall a, i32 a -> (fx_neg 32 a <> None <-> a <> -2147483648).
-Proof. exact fx_neg32_trap_iff. Qed.
-Theorem fixed_abs_no_trap_iff : forall a, i32 a -> (fx_abs 32 a <> None <-> a <> -2147483648).
-Proof. exact fx_abs32_trap_iff. Qed.
-Theorem f2dot14_abs_no_trap_iff : forall a, i16 a -> (fx_abs 16 a <> None <-> a <> -32768).
-Proof. exact fx_abs16_trap_iff. Qed.
+Theorem no_trap_fixed_neg_abs : forall bits a, fx_neg bits a <> None /\ fx_abs bits a <> None.
+Proof. exact no_trap_fx_neg_abs. Qed.
+Theorem fixed_neg_value : forall a, i32 a -> a <> -2147483648 -> fx_neg 32 a = Some (- a).
+Proof. exact fx_neg32_value. Qed.
+Theorem fixed_abs_value : forall a, i32 a -> a <> -2147483648 -> fx_abs 32 a = Some (Z.abs a).
+Proof. exact fx_abs32_value. Qed.
 Theorem no_trap_fract : forall bits f x, 0 <= f < bits - 1 -> fx_fract bits f x <> None.
 Proof. exact C20.Proofs.no_trap_fract. Qed.
 Theorem no_trap_from_i32 : forall i, fixed_from_i32_chk i <> None /\ f26dot6_from_i32_chk i <> None.
@@ -108,26 +119,32 @@ Theorem no_trap_checksum : forall l, compute_checksum l <> None.
 Proof. exact C20.Proofs.no_trap_checksum. Qed.
 
 Print Assumptions no_trap_floor.
-Print Assumptions round_no_trap_iff.
-Print Assumptions ceil_no_trap_iff.
-Print Assumptions floor_pad_no_trap_iff.
-Print Assumptions round_pad_no_trap_iff.
+Print Assumptions no_trap_round.
+Print Assumptions no_trap_ceil.
+Print Assumptions no_trap_floor_pad.
+Print Assumptions no_trap_round_pad.
+Print Assumptions round_value.
+Print Assumptions ceil_value.
 Print Assumptions no_trap_mul.
 Print Assumptions no_trap_div.
 Print Assumptions no_trap_mul_div.
 Print Assumptions no_trap_mul14.
-Print Assumptions no_trap_mul_div_no_round_partial.
+Print Assumptions no_trap_mul_div_no_round.
+Print Assumptions mul_div_no_round_value.
 Print Assumptions no_trap_normalize14_negshift.
 Print Assumptions no_trap_round_off.
-Print Assumptions round_grid_no_trap_iff.
-Print Assumptions round_half_grid_no_trap_iff.
-Print Assumptions round_double_grid_no_trap_iff.
-Print Assumptions round_down_to_grid_no_trap_iff.
-Print Assumptions round_up_to_grid_no_trap_iff.
+Print Assumptions no_trap_round_grid.
+Print Assumptions no_trap_round_half_grid.
+Print Assumptions no_trap_round_double_grid.
+Print Assumptions no_trap_round_down_to_grid.
+Print Assumptions no_trap_round_up_to_grid.
+Print Assumptions no_trap_round_super.
+Print Assumptions no_trap_round_super45.
+Print Assumptions round_grid_value.
 Print Assumptions no_trap_sround_then_round.
-Print Assumptions fixed_neg_no_trap_iff.
-Print Assumptions fixed_abs_no_trap_iff.
-Print Assumptions f2dot14_abs_no_trap_iff.
+Print Assumptions no_trap_fixed_neg_abs.
+Print Assumptions fixed_neg_value.
+Print Assumptions fixed_abs_value.
 Print Assumptions no_trap_fract.
 Print Assumptions no_trap_from_i32.
 Print Assumptions no_trap_to_conversions.
